@@ -37,6 +37,11 @@ Step(e) ==
          IN /\ e.pos < wpos /\ e.res = "ok"
             /\ e.len = wpos /\ e.bytes = Bits2Bytes(m)
             /\ mem' = m /\ UNCHANGED <<be, wpos, rpos, vis>>
+    [] e.op = "pw" ->                    \* with_write_position_at(pos, write_bits*(..)) inside the written part: pos + n <= bit_len
+         LET o == WriteOutcome(TRUE, Bytes2Bits(e.src), e.so, mem, e.pos, e.n)
+         IN /\ e.pos + e.n <= wpos /\ e.res = o.res
+            /\ e.len = wpos /\ e.bytes = Bits2Bytes(o.mem)       \* exactly these bits are overwritten, the cursor comes back
+            /\ mem' = o.mem /\ UNCHANGED <<be, wpos, rpos, vis>>
     [] e.op = "rb" ->                    \* read_bit
          LET o == ReadBitOutcome(mem, Vis(wpos), rpos)
          IN /\ e.res = o.res /\ (o.res = "ok" => e.bit = o.bit)
